@@ -130,6 +130,10 @@ def run(ctx):
             # one positively wrong shape we can name: the operands compared in the other order
             swapped = ("try", ("call", "compare", ("index", ("args",), ("lit", "1")), ("index", ("args",), ("lit", "0"))))
             ok, d = (False if S.contains(t, swapped) else None), S.show(t)
+            if S.contains_call(t, "equals") or S.contains_head(t, "bin") and any(x in S.show(t) for x in (" Eq ", " Ne ")):
+                # the unchecked comparisons derive from compare() alone; an extra equality test answers `true` for operands that are
+                # equal but not ordered (null, records, functions) - or, with the derived ==, false for equal values in different heap cells
+                ok, d = False, "the arm also tests equality (%s): ugte/ulte must answer from compare() only" % S.show(t)[:200]
             if t[0] == "match" and t[1] == ("try", ("call", "compare", ("index", ("args",), ("lit", "0")), ("index", ("args",), ("lit", "1")))):
                 true_sets, rest_false, other = set(), False, False
                 for pat, body in t[2]:
